@@ -140,6 +140,8 @@ def run_schedule(args):
                 await pump(st[1])
             elif k == "register":
                 await r.register()
+            elif k == "rstreply":         # how the NCP answers an RST from now on: None = not at all, else the RSTACK code
+                r.rst_reply = st[1]
             elif k == "quiesce":          # fault-free service until every call has ended (a reset is only modelled from a quiet stack)
                 for _ in range(400):
                     if r.h2n:
@@ -215,6 +217,15 @@ def gen_schedules(rng: random.Random, quick: bool, flavour: str):
                             steps.append(("toncp", "deliver") if i % 2 == 0 else ("tohost", "deliver"))
                         steps.append(kind)
                         steps += [("pump", 6), ("call", "nop"), ("pump", 4)]
+                        out.append((ver, 1, reg, steps))
+        # a reset that times out against an NCP that does not answer, then the NCP is healthy again: the next reset must write a new RST and complete
+        for ver in (4, 8, 14) if quick else versions:
+            for reg in (True, False):
+                for mid in ((), (("call", "nop"),), (("timer",),)):
+                    for reply2 in (0x0B, None, 0x02):
+                        steps = [("bringup",), ("call", "getNodeId"), ("pump", 8), ("rstreply", None), ("reset",), ("toncp", "deliver"), ("timer",), ("timer",)]
+                        steps += list(mid) + [("rstreply", reply2), ("reset",), ("toncp", "deliver"), ("tohost", "deliver"), ("timer",), ("version",), ("pump", 12),
+                                              ("call", "nop"), ("pump", 6)]
                         out.append((ver, 1, reg, steps))
         # a failure while nobody is registered is only logged; once the application has registered, the next failure must be reported
         for ver in (4, 8, 14) if quick else versions:
